@@ -13,7 +13,8 @@ from .pe import Sym, Ptr, unk, is_sym
 
 END = 0x0B
 OFFSET_MAGIC = 74565      # 0x12345: rendered in place of a symbolic memarg offset
-IMM_MAGIC = {'offset': OFFSET_MAGIC}
+ALIGN_MAGIC = 43981      # 0xABCD: rendered in place of a symbolic memarg alignment hint (which no generated expression may contain)
+IMM_MAGIC = {'offset': OFFSET_MAGIC, 'align': ALIGN_MAGIC}
 
 
 def dispatch_setup(it, tokens, stack, pretty=0, multiple=0, ignore=0, labels=None, module=None,
